@@ -376,7 +376,8 @@ pub fn profile(prop: &str, tier: &str) -> Profile {
             pays: vec![Pay::P4, Pay::P16],
             caps: vec![Cap::N(0), Cap::N(1), Cap::N(2), Cap::Unbounded],
             prober_ops: 3,
-            // the explainability search is exponential in the number of operations
+            // the explainability search is exponential in the number of operations (tried: with
+            // a backlog of 24 / 70 sends the quick tier did not finish within 30 minutes)
             prefill: false,
             ..base
         },
